@@ -27,7 +27,7 @@ prop(
     design_ref="DESIGN.md §4 C13",
     level_text="exploration: tens of thousands (quick) to millions (thorough) of generated reference strings, every one checked against the idempotence, classification, JSON-form and gob/JSON round-trip oracles; the canonicaliser lives in the jsonreference dependency so the part of the property owned by this repository is the JSON/gob codec and the carriers, which every case exercises",
     level_note="trusts net/url for deciding what is URL syntax; the canonical form itself is defined by the implementation (the oracle demands idempotence and stability of classification, not a particular normal form)",
-    quick=dict(checks=20000, shards=8),
+    quick=dict(checks=40000, shards=8),
     thorough=dict(checks=150000, shards=16, fuzz=[("FuzzC13", 45)]),
 )
 
@@ -43,7 +43,7 @@ prop(
     design_ref="DESIGN.md §4 C02",
     level_text="exploration: thousands (quick) to ~10^5 (thorough) random reference graphs, each expanded and compared element by element with the model's co-inductive unfolding; every content node carries a unique label so a resolution in the wrong document is visible",
     level_note="the oracle's notion of meaning is the model in harness/model (net/url.ResolveReference + own JSON-pointer evaluator); `$ref` siblings are ignored as the code documents; elements whose own $ref chain never reaches content are exempt",
-    quick=dict(checks=1000, shards=16),
+    quick=dict(checks=2000, shards=16),
     thorough=dict(checks=6000, shards=16),
 )
 
@@ -56,7 +56,7 @@ prop(
     design_ref="DESIGN.md §4 C03",
     level_text="exploration: random reference graphs (half acyclic by construction, half with arbitrary cycle topologies incl. cycles spanning documents and entered from parameters/responses/path items); every remaining $ref is checked for resolvability from the root, for designating a node on a cycle of the input (computed by the model, not by the implementation), and for its spelling; acyclic inputs are checked $ref-free and byte-deterministic over 5 expansions",
     level_note="cycle membership is computed on the reference model's graph of positions; the spelling rule demanded without AbsoluteCircularRef is: fragment-only into the root, relative (no scheme, no absolute path) for documents below the root's directory",
-    quick=dict(checks=800, shards=16),
+    quick=dict(checks=1500, shards=16),
     thorough=dict(checks=5000, shards=16),
 )
 
@@ -68,7 +68,7 @@ prop(
     design_ref="DESIGN.md §4 C08",
     level_text="exploration over (graph, fault set, mode): strict mode is checked in both directions (error iff the model finds a reachable unresolvable $ref); continue mode is checked for nil error, for every unresolvable schema $ref being left verbatim at the position the unfolding puts it, and for all unaffected elements being bisimilar to the input",
     level_note="'has to follow' is the model's path-cut unfolding from the root document's definitions, parameters, responses and paths; elements depending on an unresolvable parameter/response/path-item $ref are exempt in continue mode (the statement pins schema $refs only)",
-    quick=dict(checks=2000, shards=16),
+    quick=dict(checks=3000, shards=16),
     thorough=dict(checks=6000, shards=16),
 )
 
@@ -80,7 +80,7 @@ prop(
     design_ref="DESIGN.md §4 C09",
     level_text="exploration: random multi-document graphs expanded with SkipSchemas; checked: definitions equal the merely re-encoded input, no $ref left at parameter/response/path-item positions of well-founded elements, every schema $ref still a $ref designating exactly the same position as before (fragment-only into the root), whole result bisimilar to the input, and full expansion of the result agrees with direct full expansion (error-ness, bisimilarity, bytes when acyclic)",
     level_note="positions are compared after RFC 3986 resolution against the root URL; the codec's canonicalisation of $ref strings (e.g. %61 -> a) is not counted as touching definitions",
-    quick=dict(checks=1000, shards=16),
+    quick=dict(checks=1500, shards=16),
     thorough=dict(checks=4000, shards=16),
 )
 
@@ -93,7 +93,7 @@ prop(
     design_ref="DESIGN.md §4 C04",
     level_text="exploration + exhaustive enumeration of a bounded space: termination, absence of panics/stack overflows and a work bound are observed per job in an isolated worker (16 MiB stack), so a runaway recursion is a deterministic, attributable outcome",
     level_note="the work bound (steps <= 4*U+64, U = model's path-cut unfolding size) is calibrated: observed maximum ratio ~1.6; it detects unbounded or super-unfolding work, not constant-factor slowdowns; wall clock is only a watchdog (20 s, re-run alone with 120 s)",
-    quick=dict(checks=500, shards=8),
+    quick=dict(checks=800, shards=8),
     thorough=dict(checks=4000, shards=16),
 )
 
@@ -109,7 +109,7 @@ prop(
     design_ref="DESIGN.md §4 C01",
     level_text="exploration: the single-keyword sweep covers every keyword of every kind in every run (so a dropped or mis-tagged member is found deterministically), random combinations and nesting add interaction coverage; the oracle lists every lost, invented or changed member as an atom",
     level_note="the normal form is built into the generator exactly as the statement words it; $ref/$schema/id strings are drawn canonical (canonicalisation is C13's business); required strings are drawn empty in 1.5% of cases to keep known finding K5 visible, matched per atom",
-    quick=dict(checks=2500, shards=8),
+    quick=dict(checks=6000, shards=8),
     thorough=dict(checks=15000, shards=16),
 )
 
@@ -121,7 +121,7 @@ prop(
     design_ref="DESIGN.md §4 C14",
     level_text="exploration: thousands of documents per run through a real gob encoder/decoder pair; every difference between the JSON before and after is an atom; only atoms matching the two listed known findings (zero-valued numeric validation lost; [] inside a free-form payload turned into null) are tolerated, each judged by position with the vocabulary's typed walk",
     level_note="gob type registration is the package's own (init in swagger.go); free-form payload positions are determined by the vocabulary table, not by the implementation",
-    quick=dict(checks=1500, shards=16),
+    quick=dict(checks=3000, shards=16),
     thorough=dict(checks=12000, shards=16),
 )
 
@@ -134,7 +134,7 @@ prop(
     design_ref="DESIGN.md §4 C20",
     level_text="exploration with an exhaustive sub-space in the thorough tier: after every operation the validations readable back, the Has* queries, the encoded members and every non-validation field are compared with the model; callbacks must receive exactly the (keyword, previous value) pairs of the members that were set, once each; clears must commute",
     level_note="'set' means: pointer non-nil, boolean true, string non-empty, slice/map non-nil - the representation the accessors themselves use; simple carriers ignore the three object validations, as documented",
-    quick=dict(checks=1500, shards=8),
+    quick=dict(checks=4000, shards=8),
     thorough=dict(checks=20000, shards=16),
 )
 
@@ -146,7 +146,7 @@ prop(
     design_ref="DESIGN.md §4 C15",
     level_text="exploration: ~10^5 (quick) to ~10^7 (thorough) typed lookups, each compared with the lookup on the document's own JSON form; an error or panic on the typed side is a failure; tokens needing ~0/~1, status codes, `default`, extension members and unknown schema keywords are all produced by the vocabulary generator",
     level_note="trusts github.com/go-openapi/jsonpointer on generic (map/slice) values as the reference evaluator",
-    quick=dict(checks=1500, shards=8),
+    quick=dict(checks=3000, shards=8),
     thorough=dict(checks=15000, shards=16),
 )
 
@@ -158,7 +158,7 @@ prop(
     design_ref="DESIGN.md §4 C07",
     level_text="exploration: every input must decode to a value or an error without panic; when decode and encode succeed, decoding and encoding the encoded form must reproduce it byte for byte (diff atoms otherwise); depth 2000 and 12000 nesting probes run in a worker with a bounded stack and a watchdog",
     level_note="the case-fold exemption is the statement's own; a duplicate member is legal JSON for encoding/json (last one wins) and is in the domain",
-    quick=dict(checks=4000, shards=8),
+    quick=dict(checks=6000, shards=8),
     thorough=dict(checks=30000, shards=16, fuzz=[("FuzzC07Schema", 25), ("FuzzC07Swagger", 20), ("FuzzC07Parameter", 15), ("FuzzC07Responses", 15), ("FuzzC07PathItem", 15), ("FuzzC07SecurityScheme", 10)]),
 )
 
@@ -170,7 +170,7 @@ prop(
     design_ref="DESIGN.md §4 C06",
     level_text="exploration: encode errors are accepted, everything else must be valid JSON without repeated member names whose map containers parse back to exactly the keys the model holds (read from the Go value by field access, independently of the MarshalJSON methods); repeated encodings and encodings after a re-decode with shuffled member order must be byte-identical (this is what exposes map-iteration dependence); properties must come out in ascending integer x-order, ties and unordered ones by name",
     level_note="for non-integer x-order values only determinism is demanded (the statement does not fix how a fraction compares); emission rules that the code documents (only x- prefixed extensions, only /-prefixed paths are emitted) are applied to the model's keys before comparing",
-    quick=dict(checks=1500, shards=16),
+    quick=dict(checks=3000, shards=16),
     thorough=dict(checks=12000, shards=16),
 )
 
@@ -183,7 +183,7 @@ prop(
     design_ref="DESIGN.md §4 C12",
     level_text="exhaustive over the bounded alphabet (every run) + exploration of longer references: the single URL handed to the loader must equal the standard resolution with the fragment removed, compared as URLs (scheme, host, decoded path); a reference designating the containing document itself must cause no other request",
     level_note="net/url.ResolveReference is the reference implementation of RFC 3986 section 5; URL comparison is modulo percent-encoding normalisation (RFC 3986 6.2.2); absolute references are compared after the canonicalisation of C13",
-    quick=dict(checks=1500, shards=8),
+    quick=dict(checks=3000, shards=8),
     thorough=dict(checks=20000, shards=16, fuzz=[("FuzzC12", 40)]),
 )
 
@@ -195,7 +195,7 @@ prop(
     design_ref="DESIGN.md §4 C05",
     level_text="exploration: each case is resolved through every applicable entry point and root mode; the result must equal the model's designated sub-document decoded into the requested kind (compared as JSON values, nested $refs verbatim), a reference designating nothing must give an error and never a zero value, the root's JSON and the caller's options must be unchanged afterwards",
     level_note="the entry points without base (ResolveRef, ResolveParameter, ResolveResponse) are exercised on their documented domain: references into the root that designate the requested kind; the base document is never one the loader refuses",
-    quick=dict(checks=2500, shards=16),
+    quick=dict(checks=5000, shards=16),
     thorough=dict(checks=15000, shards=16),
 )
 
@@ -207,7 +207,7 @@ prop(
     design_ref="DESIGN.md §4 C10",
     level_text="exploration: the guarantees of whole-spec expansion (C02 meaning, C03 completeness and cut-points) are checked for each single-element call by putting the result back at the element's position; a panic or an error on a graph whose $refs all resolve is a failure; the root passed as context (deep-compared as JSON) and the option structure must be unchanged",
     level_note="the element is decoded on its own, so it shares no storage with the root; the root-based entry points do not know the root's location, so the fragment-only spelling rule is demanded of the base-location entry points only",
-    quick=dict(checks=400, shards=16),
+    quick=dict(checks=800, shards=16),
     thorough=dict(checks=2500, shards=16),
 )
 
@@ -219,7 +219,7 @@ prop(
     design_ref="DESIGN.md §4 C18",
     level_text="exploration: 4 cache states per expansion; byte equality of outputs for acyclic elements, bisimilarity with the input + cut-point validity for cyclic ones (their text legitimately depends on map order); per expansion no URL is requested twice, no pre-loaded URL is requested at all, a reused cache makes later expansions request nothing that an earlier one loaded; loader URLs and cache keys must be canonical absolute URLs",
     level_note="the harness' ResolutionCache is a plain logging map; pre-loaded documents are generic JSON under their canonical URLs",
-    quick=dict(checks=500, shards=16),
+    quick=dict(checks=800, shards=16),
     thorough=dict(checks=2000, shards=16),
 )
 
@@ -231,7 +231,7 @@ prop(
     design_ref="DESIGN.md §4 C11",
     level_text="exploration: every spelling is compared with the canonical one; a requested URL with a fragment, a relative or unclean path, a missing scheme or (for files) a query is reported; the caller's RelativeBase must be unchanged after the call",
     level_note="relative spellings are taken against the working directory of the test process (documents are served in memory under file://<cwd>/w/...); the replay re-enters that directory",
-    quick=dict(checks=400, shards=16),
+    quick=dict(checks=800, shards=16),
     thorough=dict(checks=2500, shards=16),
 )
 
@@ -243,7 +243,7 @@ prop(
     design_ref="DESIGN.md §4 C16",
     level_text="exploration over histories: a result is compared with what the documents hold at the time of the call (bisimulation with uniquely labelled content), so anything learnt from an earlier call and wrongly reused shows up as a label of the wrong variant; the set of URLs requested during the call must equal the documents reachable from its arguments (nothing served from an earlier call); the meta-schemas are resolved with a loader that refuses everything and compared with freshly decoded embedded assets",
     level_note="the root document passed in memory is also what the loader serves under the root URL during that call; histories are bounded (<= 13 steps) - hidden state that needs a longer history to manifest is out of reach",
-    quick=dict(checks=200, shards=8),
+    quick=dict(checks=400, shards=8),
     thorough=dict(checks=1200, shards=16),
 )
 
@@ -256,7 +256,7 @@ prop(
     level_text="exploration of op mixes, not of interleavings: the race detector is sound for the happens-before relation of the executed run, so what the generator varies and the evidence reports is which operations run against which shared data; results must equal the sequential ones (bytes when the element is acyclic and the call succeeds, error-ness always); a plan that does not finish within 90 s is reported as a deadlock",
     level_note="the harness cannot own the Go scheduler: a race that needs an interleaving which never occurs in the executed runs is missed, and a schedule-dependent failure is not shrunk (the plan in flight when the detector stops the process is the replay; the replay command re-runs it up to 20 times)",
     race=True,
-    quick=dict(checks=40, shards=8, timeout=600),
+    quick=dict(checks=60, shards=8, timeout=600),
     thorough=dict(checks=200, shards=16),
 )
 
